@@ -62,6 +62,8 @@ var vg struct {
 	hashed   []byte // what the transcript hash was fed
 	finIn    []byte // verify_data of the peer's Finished as delivered
 	srvSum   []byte // output of the "server finished" PRF call
+	cliSum   []byte // output of the "client finished" PRF call
+	lastSumInput []byte // transcript bytes at the latest Sum()
 	srvSeed  []byte // transcript at that call
 	srvKey   []byte
 	cliSeed  []byte
@@ -115,6 +117,7 @@ func (h *verifTranscript) Write(p []byte) (int, error) {
 	return len(p), nil
 }
 func (h *verifTranscript) Sum(b []byte) []byte {
+	vg.lastSumInput = append([]byte(nil), vg.hashed...)
 	return append(b, verifNondetBytes("digest", 32)...) // the digest value is irrelevant here: the harness compares the hashed bytes themselves
 }
 func (h *verifTranscript) Reset()         { vg.hashed = nil }
@@ -131,6 +134,7 @@ func prfAndHashForVersion(version uint16, suite *cipherSuite) (func(result, secr
 			vg.srvSeed = append([]byte(nil), vg.hashed...)
 			vg.srvKey = append([]byte(nil), secret...)
 		case "client finished":
+			vg.cliSum = append([]byte(nil), out...)
 			vg.cliSeed = append([]byte(nil), vg.hashed...)
 			vg.cliKey = append([]byte(nil), secret...)
 		case "master secret":
@@ -153,10 +157,17 @@ func (verifSigner) Sign(r io.Reader, digest []byte, opts crypto.SignerOpts) ([]b
 type verifKA struct{}
 
 func (verifKA) generateServerKeyExchange(*serverHandshakeState) (*serverKeyExchangeMsg, error) {
-	panic("server side not modelled here")
+	if verifSplitInt("skxGen", 0, 1) == 0 {
+		return nil, errors.New("cannot sign")
+	}
+	vs.skxMade++
+	return &serverKeyExchangeMsg{key: verifNondetBytes("skxOut", 3)}, nil
 }
 func (verifKA) processClientKeyExchange(*serverHandshakeState, *clientKeyExchangeMsg) ([]byte, error) {
-	panic("server side not modelled here")
+	if verifSplitInt("ckxVerdictServer", 0, 1) == 0 {
+		return nil, errors.New("bad ckx")
+	}
+	return verifNondetBytes("premaster", 48), nil
 }
 func (verifKA) processServerKeyExchange(hs *clientHandshakeState, skx *serverKeyExchangeMsg) error {
 	vg.skxSeen = true
@@ -222,7 +233,29 @@ func (c *Conn) readHandshake(transcript transcriptHash) (interface{}, error) {
 	case kCertVerify:
 		m = &certificateVerifyMsg{raw: rawOf(typeCertificateVerify)}
 	default:
-		m = &clientHelloMsg{raw: rawOf(typeClientHello)}
+		ch := &clientHelloMsg{raw: rawOf(typeClientHello), vers: verifNondetU16("ch.vers"), random: verifNondetBytes("ch.random", 32),
+			compressionMethods: verifNondetBytes("ch.comp", 1)}
+		if verifSplitInt("ch.sid", 0, 1) == 1 {
+			ch.sessionId = verifNondetBytes("ch.sid", 32)
+		}
+		// offered suites: a case split over representative lists (concrete ids keep suite selection solver-free)
+		switch verifSplitInt("ch.suites", 0, verifBound(2, 4)) {
+		case 0:
+			ch.cipherSuites = []uint16{ECC_SM4_GCM_SM3}
+		case 1:
+			ch.cipherSuites = []uint16{ECDHE_SM4_GCM_SM3}
+		case 2:
+			ch.cipherSuites = []uint16{0x1234}
+		case 3:
+			ch.cipherSuites = []uint16{ECC_SM4_CBC_SM3, ECDHE_SM4_CBC_SM3}
+		case 4:
+			ch.cipherSuites = []uint16{0x1234, ECC_SM4_GCM_SM3, ECC_SM4_CBC_SM3, ECDHE_SM4_GCM_SM3, ECDHE_SM4_CBC_SM3}
+		}
+		m = ch
+	}
+	if k == kCertVerify {
+		vs.cvPos = len(vg.wire)
+		vs.sawCV = true
 	}
 	data, _ := m.marshal()
 	vg.wire = append(vg.wire, data...)
@@ -247,6 +280,13 @@ func (c *Conn) writeHandshakeRecord(msg handshakeMessage, transcript transcriptH
 	if vg.nsent < 12 {
 		vg.sent[vg.nsent] = int(msg.messageType())
 		vg.nsent++
+	}
+	if sh, ok := msg.(*serverHelloMsg); ok {
+		vs.sentSID = sh.sessionId
+		sh.raw = rawOf(typeServerHello) // the hello codecs are checked by C14; here a message is 3 opaque bytes
+	}
+	if ch, ok := msg.(*clientHelloMsg); ok && ch.raw == nil {
+		ch.raw = rawOf(typeClientHello)
 	}
 	data, err := msg.marshal()
 	if err != nil {
@@ -295,9 +335,16 @@ func (c *Conn) verifySessionCertificates(certs []*x509.Certificate) error {
 type verifCache struct {
 	have bool
 	sess *SessionState
+	lazy func() *SessionState // server driver: the cache content is chosen only when the cache is consulted
+	gets int
 }
 
 func (sc *verifCache) Get(key string) (*SessionState, bool) {
+	sc.gets++
+	if sc.lazy != nil && sc.gets == 1 {
+		sc.sess = sc.lazy()
+		sc.have = sc.sess != nil
+	}
 	if !sc.have {
 		return nil, false
 	}
